@@ -650,20 +650,23 @@ func projectTrace(tr *straceTrace, root string) []c05Op {
 type c05File struct {
 	Data string
 	Mode int
+	Kind string // "" regular file, "D" directory, "L" symbolic link (Data = link text): Model.FsProto.kind
 }
 
 type c05Scenario struct {
-	Name      string
-	Variant   int
-	Seed      uint64
-	Args      []string
-	Base      string // directory with the pristine tree
-	Old       map[string]c05File
-	OldSnap   map[string]Entry
-	Final     map[string]c05File                                           // the tree after a complete, undisturbed run (no strace)
-	ExpectErr string                                                       // must appear on stderr of the complete run
-	Twin      string                                                       // stale-tmp: the same tree without the stale file; its complete run defines "new"
-	Expect    func(s *c05Scenario, prog []c05Action, stdout string) string // coverage floor; "" = fine
+	Name       string
+	Variant    int
+	Seed       uint64
+	Args       []string
+	Base       string // directory with the pristine tree
+	Old        map[string]c05File
+	OldSnap    map[string]Entry
+	Final      map[string]c05File                                           // the tree after a complete, undisturbed run (no strace)
+	ExpectErr  string                                                       // must appear on stderr of the complete run
+	ExpectErrs []string                                                     // foreign-tmp scenarios: one refusal per blocked file
+	Blocked    map[string]string                                            // foreign-tmp scenarios: file -> kind of the entry planted at file.pkglint.tmp
+	Twin       string                                                       // stale-tmp: the same tree without the stale file; its complete run defines "new"
+	Expect     func(s *c05Scenario, prog []c05Action, stdout string) string // coverage floor; "" = fine
 }
 
 type c05Action struct {
@@ -739,7 +742,11 @@ func c05Build(name string, variant int, seed uint64, root string) *c05Scenario {
 	}
 	t := NewBaseTree(root)
 	s := &c05Scenario{Name: name, Variant: variant, Seed: seed, Base: root, Args: []string{"-Wall", "-F", "cat/pkg"}}
-	switch name {
+	// "<base>+<kind>": the base scenario in a tree that already has entries of that kind
+	// at <file>.pkglint.tmp for some of the files the run is going to fix
+	baseName, tmpKind, _ := strings.Cut(name, "+")
+	mkFixed := true
+	switch baseName {
 	case "single-mk":
 		t.Write("cat/pkg/Makefile", c05Makefile(r, 1+r.Intn(4)))
 		if r.Bool() {
@@ -769,7 +776,7 @@ func c05Build(name string, variant int, seed uint64, root string) *c05Scenario {
 		}
 	case "chmod":
 		mode := Pick(r, []fs.FileMode{0o755, 0o744, 0o775, 0o711, 0o654})
-		if r.Bool() {
+		if mkFixed = r.Bool(); mkFixed {
 			t.Write("cat/pkg/Makefile", c05Makefile(r, 1+r.Intn(2)))
 		}
 		os.Chmod(t.Path("cat/pkg/Makefile"), mode)
@@ -799,6 +806,9 @@ func c05Build(name string, variant int, seed uint64, root string) *c05Scenario {
 			return ""
 		}
 	}
+	if tmpKind != "" {
+		c05PlantForeign(s, t, r, baseName, tmpKind, mkFixed)
+	}
 	s.Old = c05ReadTree(root)
 	s.OldSnap = Snapshot(root)
 	return s
@@ -815,18 +825,37 @@ func c05Changed(s *c05Scenario, files ...string) string {
 	return ""
 }
 
+// c05ReadTree: the tree as a map path -> entry, the model's fsmap: every regular file,
+// every symbolic link (lstat view) and every directory that bears a temporary name
+// (the other directories are the implicit parents of the paths; their loss is
+// c05DirsLost's business).
 func c05ReadTree(root string) map[string]c05File {
 	m := map[string]c05File{}
 	filepath.Walk(root, func(p string, info fs.FileInfo, err error) error {
-		if err != nil || !info.Mode().IsRegular() {
+		if err != nil {
 			return nil
 		}
 		rel, _ := filepath.Rel(root, p)
-		b, _ := os.ReadFile(p)
-		m[rel] = c05File{Data: string(b), Mode: int(info.Mode().Perm())}
+		switch {
+		case info.Mode().IsRegular():
+			b, _ := os.ReadFile(p)
+			m[rel] = c05File{Data: string(b), Mode: int(info.Mode().Perm())}
+		case info.Mode()&fs.ModeSymlink != 0:
+			l, _ := os.Readlink(p)
+			m[rel] = c05File{Data: l, Mode: int(info.Mode().Perm()), Kind: "L"}
+		case info.IsDir() && strings.HasSuffix(rel, ".pkglint.tmp"):
+			m[rel] = c05File{Mode: int(info.Mode().Perm()), Kind: "D"}
+		}
 		return nil
 	})
 	return m
+}
+
+func c05KindLetter(f c05File) string {
+	if f.Kind == "" {
+		return "F"
+	}
+	return f.Kind
 }
 
 // ---------- running under strace ----------
@@ -933,7 +962,7 @@ func c05Strace(ctx *Ctx, s *c05Scenario, target *c05Op, baseRoot string, action 
 func c05InitTokens(old map[string]c05File, umask int) string {
 	var sb strings.Builder
 	for _, p := range sortedKeys(old) {
-		fmt.Fprintf(&sb, "F %s %s %d ", hx(p), hx(old[p].Data), old[p].Mode)
+		fmt.Fprintf(&sb, "%s %s %s %d ", c05KindLetter(old[p]), hx(p), hx(old[p].Data), old[p].Mode)
 	}
 	fmt.Fprintf(&sb, "U %d", umask)
 	return sb.String()
@@ -987,11 +1016,15 @@ func c05ParseListing(s string) (map[string]c05File, bool) {
 		return nil, false
 	}
 	for i := 0; i < len(f); i += 4 {
-		if f[i] != "F" {
+		if f[i] != "F" && f[i] != "D" && f[i] != "L" {
 			return nil, false
 		}
 		mode, _ := strconv.Atoi(f[i+3])
-		m[unhx(f[i+1])] = c05File{Data: unhx(f[i+2]), Mode: mode}
+		kind := f[i]
+		if kind == "F" {
+			kind = ""
+		}
+		m[unhx(f[i+1])] = c05File{Data: unhx(f[i+2]), Mode: mode, Kind: kind}
 	}
 	return m, true
 }
@@ -1107,6 +1140,8 @@ func c05DiffFiles(a, b map[string]c05File) []string {
 		switch {
 		case !ok:
 			d = append(d, p+" (missing)")
+		case fa.Kind != fb.Kind:
+			d = append(d, fmt.Sprintf("%s (kind %s/%s)", p, c05KindLetter(fa), c05KindLetter(fb)))
 		case fa.Data != fb.Data:
 			d = append(d, p+" (content)")
 		case fa.Mode != fb.Mode:
@@ -1159,6 +1194,7 @@ type c05State struct {
 	res   *Result
 	umask int
 	mu    sync.Mutex
+	cross []c05Cross // cases for the extraction cross-check
 }
 
 func (st *c05State) evals(n, validated int) {
@@ -1180,7 +1216,7 @@ func (st *c05State) replayMap(s *c05Scenario, mode string, k int, errno string) 
 	files := map[string]any{}
 	for p, f := range s.Old {
 		if strings.HasPrefix(p, "cat/pkg/") {
-			files[p] = map[string]any{"data": hx(f.Data), "mode": f.Mode}
+			files[p] = map[string]any{"data": hx(f.Data), "mode": f.Mode, "kind": f.Kind}
 		}
 	}
 	// the tree = base fixture (harness/tree.go NewBaseTree) with cat/pkg/ replaced by `files`
@@ -1200,7 +1236,7 @@ func (st *c05State) baseline(s *c05Scenario) (*c05Run, []c05Action, bool) {
 	s.Final = plainAfter
 	if s.Twin != "" {
 		tw := RunPkglint(ctx, s.Twin, 30*time.Second, s.Args...)
-		if tw.Exit != plain.Exit {
+		if tw.Exit != plain.Exit && s.Blocked == nil { // a planted entry may draw diagnostics of its own
 			res.Broken = fmt.Sprintf("scenario %s: twin run exit=%d", s.Name, tw.Exit)
 			return nil, nil, false
 		}
@@ -1235,10 +1271,13 @@ func (st *c05State) baseline(s *c05Scenario) (*c05Run, []c05Action, bool) {
 		res.Broken = fmt.Sprintf("scenario %s (%s): %s", s.Name, strings.Join(s.Args, " "), why)
 		return nil, nil, false
 	}
-	if s.ExpectErr != "" && !strings.Contains(plain.Stderr, s.ExpectErr) {
-		rep := st.replayMap(s, "plain", -1, "")
-		res.AddViolation(Violation{Key: "C05/complete-run/no-error-line", FoundInput: true, Size: 1, Replay: rep,
-			What: fmt.Sprintf("scenario %s: `pkglint %s` does not report %q on stderr (%q)", s.Name, strings.Join(s.Args, " "), s.ExpectErr, c05Short(plain.Stderr))})
+	for _, want := range append([]string{s.ExpectErr}, s.ExpectErrs...) {
+		if want != "" && !strings.Contains(plain.Stderr, want) {
+			rep := st.replayMap(s, "plain", -1, "")
+			res.AddViolation(Violation{Key: "C05/complete-run/no-error-line", FoundInput: true, Size: 1, Replay: rep,
+				What: fmt.Sprintf("scenario %s: `pkglint %s` does not report %q on stderr (%q)", s.Name, strings.Join(s.Args, " "), want, c05Short(plain.Stderr))})
+			break
+		}
 	}
 	if s.Expect != nil {
 		if why := s.Expect(s, prog, run.Stdout); why != "" {
@@ -1263,6 +1302,9 @@ func (st *c05State) baseline(s *c05Scenario) (*c05Run, []c05Action, bool) {
 		res.AddViolation(Violation{Key: key, FoundInput: true, Size: 1, Replay: rep,
 			What: fmt.Sprintf("scenario %s: after a complete, undisturbed `pkglint %s` the file %s %s", s.Name, strings.Join(s.Args, " "), bad, what)})
 	}
+	// ... and every entry that does not belong to the run is exactly as before
+	st.foreignCheck(s, prog, plainAfter, true, "complete-run", st.replayMap(s, "plain", -1, ""), 1,
+		fmt.Sprintf("after a complete, undisturbed `pkglint %s`", strings.Join(s.Args, " ")))
 	// the program is cross-checked against what can be seen without the trace:
 	// changed files = saved or chmodded files, last saved content = final content,
 	// every touched file is named in an AUTOFIX line
@@ -1475,6 +1517,11 @@ func (st *c05State) kill(s *c05Scenario, base *c05Run, prog []c05Action, k int) 
 				s.Name, strings.Join(s.Args, " "), hit, hitOp, c05OpsString(done), bad, what), Replay: rep})
 		return hit
 	}
+	// entries that do not belong to the run are as before (a temporary file of the run's own may exist)
+	if st.foreignCheck(s, prog, run.After, false, "kill", st.replayMap(s, "kill", hit, ""), 10*len(done)+len(s.Args),
+		fmt.Sprintf("pkglint %s killed before its mutating system call #%d (%s), after [%s]", strings.Join(s.Args, " "), hit, hitOp, c05OpsString(done))) {
+		return hit
+	}
 	// the tree is exactly the model's state after the completed operations
 	modelable := true
 	for _, o := range done {
@@ -1665,6 +1712,10 @@ func (st *c05State) fault(s *c05Scenario, base *c05Run, prog []c05Action, k int,
 		}
 		rep["file"] = bad
 		res.AddViolation(Violation{Key: keyp + kind, FoundInput: true, Size: 10 * hit, Replay: rep, What: fmt.Sprintf("%s: %s: %s", where, bad, what)})
+		return true
+	}
+	// 1b. entries that do not belong to the run are exactly as before; no temporary file of the run is left
+	if st.foreignCheck(s, progF, run.After, true, "fault", rep, 10*hit, where) {
 		return true
 	}
 	// 2. the failure is reported on stderr
@@ -1880,7 +1931,10 @@ func (st *c05State) shortWrite(s *c05Scenario, prog []c05Action, limit int) {
 		rep["observed"] = c05OpsString(run.Ops)
 		res.AddViolation(Violation{Key: "C05/short-write/content", FoundInput: true, Size: limit, Replay: rep,
 			What: fmt.Sprintf("scenario %s with RLIMIT_FSIZE=%d (short write, then SIGXFSZ): %s is neither old nor new; observed %s", s.Name, limit, bad, c05OpsString(run.Ops))})
+		return
 	}
+	st.foreignCheck(s, prog, run.After, false, "short-write", st.replayMap(s, "short", limit, ""), limit,
+		fmt.Sprintf("with RLIMIT_FSIZE=%d (short write, then SIGXFSZ)", limit))
 }
 
 func c05Umask() int {
@@ -1920,7 +1974,10 @@ func (st *c05State) scenario(name string, variant int, thorough bool, rng *Rng) 
 			}
 		} else {
 			off := rng.Intn(4)
-			jobs = append(jobs, job{k, errnos[(k+off)%4]}, job{k, errnos[(k+off+1+rng.Intn(3))%4]})
+			jobs = append(jobs, job{k, errnos[(k+off)%4]})
+			if s.Blocked == nil { // the foreign-tmp scenarios repeat a base scenario: one errno per call there
+				jobs = append(jobs, job{k, errnos[(k+off+1+rng.Intn(3))%4]})
+			}
 		}
 	}
 	killHit := make([]int, len(jobs))
@@ -1966,12 +2023,21 @@ func runC05(ctx *Ctx) *Result {
 		variants = 12
 	}
 	for v := 0; v < variants; v++ {
-		for _, name := range c05Scenarios {
+		for _, name := range append(append([]string{}, c05Scenarios...), c05ForeignScenarios(ctx.Seed, v, ctx.Tier == "thorough")...) {
 			st.scenario(name, v, ctx.Tier == "thorough", rng)
 			if res.Broken != "" {
 				return res
 			}
 		}
+	}
+	// extraction cross-check: 40 of the judged snapshots, spread over the run (every scenario, all phases)
+	if n := len(st.cross); n > 0 {
+		var pick []c05Cross
+		step := n/40 + 1
+		for i := 0; i < n; i += step {
+			pick = append(pick, st.cross[i])
+		}
+		c05CrossCheckExtraction(ctx, res, st.umask, pick)
 	}
 	dist := 0
 	for k, v := range res.Distribution {
@@ -2034,10 +2100,21 @@ func replayC05(ctx *Ctx, rep map[string]any) *Result {
 			m, _ := v.(map[string]any)
 			data, _ := m["data"].(string)
 			mode, _ := m["mode"].(float64)
+			kind, _ := m["kind"].(string)
 			t := &Tree{Root: s.Base}
+			if kind == "D" || kind == "L" {
+				os.MkdirAll(filepath.Dir(t.Path(p)), 0o755)
+				if kind == "D" {
+					os.MkdirAll(t.Path(p), 0o755)
+					os.Chmod(t.Path(p), fs.FileMode(int(mode)))
+				} else {
+					os.Symlink(unhx(data), t.Path(p))
+				}
+				continue
+			}
 			t.Write(p, unhx(data))
 			os.Chmod(t.Path(p), fs.FileMode(int(mode)))
-			if s.Twin != "" && !strings.HasSuffix(p, ".pkglint.tmp") {
+			if s.Twin != "" && !strings.Contains(p, ".pkglint.tmp") {
 				(&Tree{Root: s.Twin}).Write(p, unhx(data))
 			}
 		}
